@@ -195,18 +195,6 @@ _STEP_ONE = (f"c05c_cut_with('step5:closed-form-vanishes-without-nests-or-with-u
              f"implies({_ALL_ONE}, forall(lambda x: {_LNG('x')} == 0, ty='int')))")
 
 
-# terms of the sum in the contract of logmev / mev, written over the locals of lognested / nested
-_TM_AV = Bd._rename(Bd._T_AV_M, 'av', AV)
-_TM_FULL = Bd._T_FULL_M
-_AGREE = []
-for _tag, _cond, _tm, _tn in (('closed-form', _A_AV_N, _TM_AV, _T_AV_N), ('closed-form-full', _A_FULL_N, _TM_FULL, _T_FULL_N),
-                              ('logit', f'{_ALL_ONE} and {_A_AV_N}', _TM_AV, _LOGIT_T_AV),
-                              ('logit-full', f'{_ALL_ONE} and {_A_FULL_N}', _TM_FULL, _LOGIT_T_FULL)):
-    _AGREE.append(f"c05c_cut('step6:{_tag}:terms-agree', lambda: implies({_cond}, forall(lambda q: {_tm} == {_tn}, 0, len(util))))")
-    _AGREE.append(f"c05c_cut('step7:{_tag}:sums-agree', lambda: implies({_cond}, sum_range(lambda q: {_tm}, 0, len(util)) == "
-                  f"sum_range(lambda q: {_tn}, 0, len(util))))")
-
-
 _STEP_ONE_B = (f"c05c_cut('step5b:generating-terms-vanish-without-nests-or-with-unit-nest-parameters', lambda: implies({_ALL_ONE}, "
                f"forall(lambda q: c05c_val(log_gi[{_KU}]) == 0, 0, len(util)) and "
                f"implies({_CHN} in util, c05c_val(log_gi[{_CHN}]) == 0)))")
@@ -228,6 +216,6 @@ for fn, wrap in (('lognested', False), ('nested', True)):
              requires=_REQ_L, modifies=[], may_raise=['BiogemeError'],
              raises={'TypeError': N._NOT_OPERAND.format('choice')},
              # the reduction to logit is stated on the log version (the probability version is exp of it: closed form below)
-             hints=(_STEPS + [_STEP_ONE, _STEP_ONE_B] + _AGREE) if not wrap else (_STEPS + _AGREE[:4]),
+             hints=(_STEPS + [_STEP_ONE, _STEP_ONE_B]) if not wrap else _STEPS,
              ensures={**_closed_form(wrap), **(_reduces(wrap) if not wrap else {})},
              min_obligations=4, replay=_REPLAY_NESTED)
